@@ -553,10 +553,19 @@ fn run_scenario(sc: &J) -> J {
     // schedule is armed afterwards.
     #[cfg(feature = "hooks")]
     yarel::memory::verif::configure(yarel::memory::verif::Pacing::Never, false, None);
-    let built = panic::catch_unwind(|| {
+    // config.default_loader: the interpreter keeps its own module loader (the real file system): used only with paths
+    // that do not exist, to see how the default loader reports a missing file
+    let default_loader = sc
+        .get("config")
+        .and_then(|c| c.get("default_loader"))
+        .and_then(|m| m.as_bool())
+        .unwrap_or(false);
+    let built = panic::catch_unwind(move || {
         let mut vm = Vm::with_built_ins();
         vm.set_printer(printer);
-        vm.set_module_loader(loader);
+        if !default_loader {
+            vm.set_module_loader(loader);
+        }
         vm
     });
     let mut vm = match built {
